@@ -53,12 +53,21 @@ pub fn expr(d: &mut Dice, depth: usize) -> String {
         return atom(d);
     }
     let e = |d: &mut Dice| expr(d, depth - 1);
-    match d.weighted(&[6, 3, 3, 4, 4, 6, 2, 3, 2, 2, 2, 2, 2, 2, 2, 2, 2, 2, 2]) {
+    match d.weighted(&[6, 3, 3, 4, 4, 6, 2, 3, 2, 2, 2, 2, 2, 2, 2, 2, 2, 2, 2, 3]) {
         0 => atom(d),
+        // qualified path over generated types (fn pointers / `dyn Fn(..) -> ..` bring `->` inside the angle brackets)
+        19 => match d.pick(3) {
+            0 => format!("<{} as Tr<{}, {}>>::X", ty(d, 2), ty(d, 1), ty(d, 1)),
+            1 => format!("<{} as Tr<{}, {}>>::f({})", ty(d, 2), ty(d, 1), ty(d, 1), e(d)),
+            _ => format!("<{}>::g::<{}, {}>({})", ty(d, 2), ty(d, 1), ty(d, 1), e(d)),
+        },
         1 => format!("f({}, {})", e(d), e(d)),
         2 => format!("{}.m::<{}, {}>({})", e(d), ty(d, 1), ty(d, 1), e(d)),
         3 => format!("{} as {}", atom(d), ty(d, 2)),
-        4 => match d.pick(5) {
+        4 => match d.pick(7) {
+            // explicit return types (the body is then a block); generic arguments bring commas
+            5 => format!("|a, b| -> {} {{ {} }}", ty(d, 2), e(d)),
+            6 => format!("move || -> M<{}, {}> {{ {} }}", ty(d, 1), ty(d, 1), e(d)),
             0 => format!("|a, b| {}", e(d)),
             1 => format!("|a: {}, b| {}", ty(d, 2), e(d)),
             2 => format!("move |x| {{ {}; {} }}", e(d), e(d)),
@@ -115,6 +124,8 @@ pub struct ListCase {
     /// elements as generated (alias, expression text)
     pub elems: Vec<(Option<String>, String)>,
     pub trailing_comma: bool,
+    /// aliases are written `name=expr` (the `=` glued to whatever punctuation the expression starts with)
+    pub glued: bool,
 }
 
 impl ListCase {
@@ -123,6 +134,7 @@ impl ListCase {
             .elems
             .iter()
             .map(|(a, e)| match a {
+                Some(a) if self.glued => format!("{a}={e}"),
                 Some(a) => format!("{a} = {e}"),
                 None => e.clone(),
             })
@@ -136,7 +148,7 @@ impl ListCase {
 }
 
 fn adversarial(d: &mut Dice) -> Vec<(Option<String>, String)> {
-    let sets: [&[&str]; 12] = [
+    let sets: [&[&str]; 13] = [
         &["a < b", "c > ::d"],
         &["a < b", "c >> d"],
         &["|a, b| a | b", "c"],
@@ -149,13 +161,14 @@ fn adversarial(d: &mut Dice) -> Vec<(Option<String>, String)> {
         &["a", "b < c >> d"],
         &["<A as T<B, C>>::X", "f::<A, B>()"],
         &["x as usize < y", "z > w"],
+        &["|x| -> M<K, V> { y }", "z"],
     ];
     sets[d.pick(sets.len())].iter().map(|s| (None, s.to_string())).collect()
 }
 
 fn build(d: &mut Dice) -> ListCase {
     if d.chance(12) {
-        return ListCase { elems: adversarial(d), trailing_comma: d.chance(30) };
+        return ListCase { elems: adversarial(d), trailing_comma: d.chance(30), glued: false };
     }
     let n = d.weighted(&[1, 3, 4, 3, 2, 1]);
     let mut elems = vec![];
@@ -179,7 +192,7 @@ fn build(d: &mut Dice) -> ListCase {
         };
         elems.push((alias, e));
     }
-    ListCase { elems, trailing_comma: d.chance(25) }
+    ListCase { elems, trailing_comma: d.chance(25), glued: d.chance(25) }
 }
 
 // ------------------------------------------------------------------------------------------------
@@ -356,6 +369,20 @@ fn contains_seq_spacing(hay: &[String], needle: &[String]) -> bool {
         return true;
     }
     let strip = |s: &String| s.replace('\u{200d}', "");
+    // a `=` glued to a token it cannot form a compound token with (`name=*x`) means the same as a free-standing one
+    // (only `==` and `=>` start with `=`): the derive re-creates the `=` of an alias, so that spacing is not compared
+    let norm_eq = |v: &[String]| -> Vec<String> {
+        (0..v.len())
+            .map(|i| {
+                if v[i] == "=\u{200d}" && v.get(i + 1).map_or(true, |nx| !nx.starts_with('=') && !nx.starts_with('>')) {
+                    "=".to_string()
+                } else {
+                    v[i].clone()
+                }
+            })
+            .collect()
+    };
+    let (hay, needle) = (&norm_eq(hay)[..], &norm_eq(needle)[..]);
     let n = needle.len();
     hay.windows(n).any(|w| w[..n - 1] == needle[..n - 1] && strip(&w[n - 1]) == strip(&needle[n - 1]))
 }
